@@ -113,6 +113,52 @@ func runRecv(c RecvCase) *evid.Failure {
 			}
 		}
 	}
+	// Reassembly is complete without any retransmission: once the wire is quiet
+	// the stack must have acknowledged the whole contiguous prefix of what it was
+	// sent (everything lies inside the window it advertised and, the total being
+	// below the receive buffer, inside its out-of-order store): data parked out
+	// of order that has become in-order is "in-order data inside the advertised
+	// window" and must be accepted and delivered (C04, and C14 at the wrap points).
+	total := 0
+	for _, sg := range c.Segs {
+		total += sg.Len + 1
+	}
+	if total < c.Env.RcvBuf/2 {
+		wantAck := uint32(edge)
+		if edge == c.Stream && covered[c.Stream] {
+			wantAck++
+		}
+		lastAck := func() (uint32, bool) {
+			var last *codec.Packet
+			for _, f := range env.Tap.Trace() {
+				if p.Mine(f) && f.Pkt.Flags&codec.ACK != 0 && f.Pkt.Flags&codec.RST == 0 {
+					last = f.Pkt
+				}
+			}
+			if last == nil {
+				return 0, false
+			}
+			return last.Ack - (p.ISS + 1), true
+		}
+		// the stack works through its segment queue on its own goroutine: wait for
+		// the acknowledgement (nothing else is sent meanwhile, so no progress within
+		// 2 s means none will come); a miss is confirmed by running the case again
+		dl := time.Now().Add(2 * time.Second)
+		acked, have := lastAck()
+		for (!have || int32(acked-uint32(edge)) < 0) && time.Now().Before(dl) {
+			env.Tap.Scan(env.Tap.Len(), 20*time.Millisecond, func(netsim.Frame) bool { return true })
+			acked, have = lastAck()
+		}
+		if have {
+			// (judged on data only: a FIN riding on a segment whose data is entirely
+			// duplicate is not taken by this receiver and comes again with the peer's
+			// retransmission; the property speaks of data)
+			if int32(acked-uint32(edge)) < 0 || int32(acked-wantAck) > 0 {
+				return evid.Failf("reassembly-incomplete", "raw sender: every byte of stream offsets [0,%d) has been sent (in %d segments, some out of order) and nothing more for 2 s, but the stack acknowledges only %d: out-of-order data that has become in-order was not taken from the reassembly queue (peer ISS %#x)", edge, len(c.Segs), acked, p.ISS)
+			}
+			evid.Label("raw-recv:reassembly-judged")
+		}
+	}
 	// cleanup pass: the whole stream in order, then FIN (a retransmitting sender)
 	for off := 0; off < c.Stream; off += 1000 {
 		n := 1000
@@ -192,8 +238,23 @@ func genRecv(rt *rapid.T) RecvCase {
 	return c
 }
 
+// runRecvConfirmed: the reassembly verdict rests on a deadline and is confirmed
+// by a second run of the same case.
+func runRecvConfirmed(c RecvCase) *evid.Failure {
+	f := runRecv(c)
+	if f == nil || f.Sig != "reassembly-incomplete" {
+		return f
+	}
+	if f2 := runRecv(c); f2 != nil {
+		return f2
+	}
+	evid.Label("raw-recv:reassembly-verdict-not-confirmed")
+	evid.Unconfirmed()
+	return nil
+}
+
 func TestRawRecv(t *testing.T) {
-	evid.Run(t, evid.Spec[RecvCase]{Name: "raw-recv", Gen: genRecv, Run: runRecv})
+	evid.Run(t, evid.Spec[RecvCase]{Name: "raw-recv", Gen: genRecv, Run: runRecvConfirmed})
 }
 
 // ---------------------------------------------------------------------------
